@@ -13,7 +13,7 @@ import (
 func c07Cfg(opts flags.Options) *DeclCfg {
 	types := []TypeSpec{{K: KString}, {K: KBool}, {K: KBool}, {K: KInt}, {K: KString, W: WSlice}, {K: KBool, W: WSlice}, {K: KFloat64}, {K: KString, W: WMap, MapKey: KString}}
 	return &DeclCfg{
-		MaxDepth: 3, MaxFan: 3, PCmds: 70, Types: types, OptsMin: 1, OptsMax: 4, SubGroupsMax: 1, PInline: 20, NestMax: 2,
+		MaxDepth: 3, MaxFan: 3, PCmds: 70, Types: types, OptsMin: 1, OptsMax: 4, SubGroupsMax: 1, PInline: 20, PNameless: 15, NestMax: 2,
 		PNamespace: 45, PShortOnly: 15, PLongOnly: 20, PClash: 10, NonASCII: true, PNoFlag: 35,
 		PPos: 35, PosMax: 2, PRest: 40, PPosLongTag: 50, PNamedRest: 30, PExec: 40, PByTag: 50, PSubOptional: 45, PAliases: 20,
 		ParserOpts: []flags.Options{opts}, NsDelims: []string{"", ".", "-", "::"}, PosTypes: []TypeSpec{{K: KString}},
@@ -111,7 +111,7 @@ func c07Run(c *Ctx) {
 	cur := cmdBefore(d, valid, pos)
 	scope := d.ScopeOf(cur)
 	// choose the unknown token
-	kind := []string{"near-miss", "near-miss", "out-of-scope", "cluster", "no-flag-field", "after-sibling-word", "positional-field-tag"}[(c.K/12)%7]
+	kind := []string{"near-miss", "near-miss", "out-of-scope", "cluster", "no-flag-field", "after-sibling-word", "positional-field-tag", "empty-name"}[(c.K/12)%8]
 	var tok, name string
 	cluster := false
 	var extraWord []string
@@ -145,6 +145,11 @@ func c07Run(c *Ctx) {
 		if !so.T.IsFlag() {
 			tok += "=" + GenScalarTextSimple(r, so)
 		}
+	case "empty-name":
+		// "--=value": an option with an empty name. Options that have no flag name at all (ini-name only) do not
+		// answer to it
+		name = ""
+		tok = "--=" + r.Pick([]string{"x", "3", "value"})
 	case "positional-field-tag":
 		// a long: tag on a field of a positional-args struct does not declare an option
 		var pas []*PosArg
